@@ -196,7 +196,28 @@ func (w *World) GenOp(ctx sdk.Context, p PoolInfo) Op {
 		a := int64(1 + r.Intn(int(sp)))
 		b := int64(1 + r.Intn(int(sp)))
 		tag := ""
-		switch r.Intn(8) {
+		// initialised ticks strictly above / at-or-below the cursor (bounds of open positions)
+		var above, below []int64
+		for _, q := range poss {
+			for _, t := range []int64{q.LowerTick, q.UpperTick} {
+				if t > cur {
+					above = append(above, t)
+				} else if t < cur {
+					below = append(below, t)
+				}
+			}
+		}
+		switch r.Intn(11) {
+		case 8, 9:
+			// a range one of whose ticks is OLD (initialised, possibly crossed since: its fee growth
+			// outside is set) and the other new: growth inside can then be negative in a denom
+			if len(above) > 0 && (len(below) == 0 || r.Bool()) {
+				lo, up, tag = cur-a, above[r.Intn(len(above))], "upper-on-initialised-tick-above"
+			} else if len(below) > 0 {
+				lo, up, tag = below[r.Intn(len(below))], cur+b, "lower-on-initialised-tick-below"
+			} else {
+				lo, up, tag = cur-a, cur+b, "around"
+			}
 		case 0:
 			lo, up, tag = cur+a, cur+a+b, "above"
 		case 1:
